@@ -1,7 +1,7 @@
 (* C20 - executable checkers over the implementation's observations.
    Module U: canary.UniqueSet, every operation sequence (observation trees).
    Module S: portscan events per detector tick for a burst of probes. *)
-From Coq Require Uint63.
+From Coq Require Import Uint63.
 From HT Require Import Common.Bytes C20.Model.
 Open Scope N_scope.
 
@@ -178,8 +178,14 @@ Definition model_events (c : scase) : list devent :=
   map (fun k => DKnock k 0%Z) (flat_map (knocks_of_probe None false) (s_probes c)) ++
   map DTick (tick_times (length (s_ticks c))).
 
+(* the observation lists the report rounds that produced events, in order (a tick that reports
+   nothing is invisible), padded with empty rounds *)
+Definition nonempty {A} (l : list A) : bool := match l with [] => false | _ => true end.
+Definition compact (n : nat) (l : list (list ev)) : list (list ev) :=
+  firstn n (filter nonempty l ++ repeat [] n).
+
 Definition model_obs (c : scase) : option (list (list ev)) :=
-  Some (map (map ev_of_report) (fst (run (model_events c) det0))).
+  Some (compact (length (s_ticks c)) (map (map ev_of_report) (fst (run (model_events c) det0)))).
 
 Fixpoint nodup_p (l : list (N * N)) : list (N * N) :=
   match l with
@@ -315,12 +321,12 @@ Definition untracked (o : fout) : bool := match o with FPanic | FUnknown => true
 
 Definition model_ticks (c : fcase) : list (list ev) :=
   let ks := knocks_of (rx_frames (f_me c) [] (f_frames c)) in
-  map (map ev_of_report)
-      (fst (run (map (fun k => DKnock k 0%Z) ks ++ map DTick (tick_times (length (f_ticks c)))) det0)).
+  compact (length (f_ticks c)) (map (map ev_of_report)
+      (fst (run (map (fun k => DKnock k 0%Z) ks ++ map DTick (tick_times (length (f_ticks c)))) det0))).
 
 (* the UDP handler goroutines race: events and ports are compared up to order *)
 Definition ev_key2 (e : ev) : N :=
-  ((e_sip e * 281474976710656 + e_smac e) * 281474976710656 + e_dmac e) * 4
+  (((e_sip e * 4294967296 + e_dip e) * 281474976710656 + e_smac e) * 281474976710656 + e_dmac e) * 4
   + match e_ports e with p :: _ => fst p | [] => 3 end.
 Definition canon2 (t : list ev) : list ev := sort_by ev_key2 (map canon_ev t).
 
@@ -424,7 +430,10 @@ Definition model_ticks (c : qcase) : list (list ev) :=
   let evs := map (fun k => DKnock k 0%Z) (knocks_of_probes (qc_gate c)) ++ [DTick 5000%Z] ++
              map (fun k => DKnock k 5000%Z) (knocks_of_probes (qc_burst c)) ++
              map (fun i => DTick (5000 * Z.of_nat (S (S i)))%Z) (seq 0 (length (qc_ticks c))) in
-  map (map ev_of_report) (fst (run evs det0)).
+  match map (map ev_of_report) (fst (run evs det0)) with
+  | pre :: rest => pre :: compact (length (qc_ticks c)) rest
+  | [] => []
+  end.
 
 (* with the consumer stopped and every producer scheduled, exactly the knocks beyond the
    capacity are blocked (q_step: a send completes iff the queue has room) *)
